@@ -111,6 +111,37 @@ class Config:
         return c
 
 
+def gc_roots(pids=None):
+    """remove lab roots left behind by processes that are gone (workers are killed, not shut down, so their atexit never runs);
+    with `pids`: remove the roots of exactly those processes"""
+    import re
+    base = scratch_base()
+    try:
+        names = os.listdir(base)
+    except OSError:
+        return 0
+    n = 0
+    for name in names:
+        m = re.fullmatch(r"vp-(\d{7})-(\d{3})", name)
+        if not m:
+            continue
+        pid = int(m.group(1))
+        if pids is not None:
+            if pid not in pids:
+                continue
+        else:
+            try:
+                os.kill(pid, 0)
+                continue            # a live process owns it (or the pid was reused: left alone)
+            except ProcessLookupError:
+                pass
+            except PermissionError:
+                continue
+        _rmtree_force(os.path.join(base, name))
+        n += 1
+    return n
+
+
 class Result:
     def __init__(self, cmd, argv, rc, out, err, tags, trace, before, after, signal=None):
         self.cmd, self.argv, self.rc, self.out, self.err = cmd, argv, rc, out, err
